@@ -15,15 +15,17 @@ i = s.index("### 0.7 Seeded property-breaking changes")
 j = s.index("### 0.8 Behaviour-preserving rewrites")
 new = f'''### 0.7 Seeded property-breaking changes and the checks that catch them
 
-{len(rows)} changes written by fresh sub-agents that saw only one property's text and a scratch worktree, in six rounds
-(`seeded/Cxx`, `Cxxb` … `Cxxf`). Round two was told what round one had done and asked for a different clause / site /
+{len(rows)} changes written by fresh sub-agents that saw only one property's text and a scratch worktree, in seven rounds
+(`seeded/Cxx`, `Cxxb` … `Cxxg`). Round two was told what round one had done and asked for a different clause / site /
 trigger; every later round was shown what all earlier ones need in order to manifest and was given a theme: round three the
 **glue** (construction paths and entry points, parameter handling and defaults, helper modules such as the motif generators,
 representation conversions, behaviour after several calls on one object); round four **boundaries and numerics**
 (inclusive/exclusive ends, first / last / only element, N = 0 or 1, largest admissible parameters, int versus float
 arithmetic and overflow, ordering and tie-breaking); round five **domain confusions** (degree vs excess degree, stubs vs
 motifs vs edges, index vs id vs size, edges vs edge ends, ordered vs unordered pairs, probability vs complement, a formula
-outside the case it was derived for); round six **names and labels, iteration order, error handling, repeated use**.
+outside the case it was derived for); round six **names and labels, iteration order, error handling, repeated use**; round seven **types and containers, scale, copies**
+(NumPy integers and arrays where Python ints / tuples / lists are usual, iterators for sequences, equal-but-distinct objects,
+falsy labels, counts beyond 256 / 1024 / 10^6, in-place updates of aliased values).
 Each was confirmed here in a scratch worktree (compiles, repository tests of the touched area pass, `demo.py` exits 0 on the
 unchanged tree and 1 with the change) and is kept as `seeded/<id>/{{patch.diff,demo.py,meta.json}}`. `tools/regress.py` applies
 every one of them to a scratch worktree and runs the quick check of the property it breaks: **{len(rows)} of {len(rows)} exit 1 with
@@ -33,7 +35,9 @@ report ends `no-failing-input-found`, depending on the seed).
 {len(missed)} of them were **missed** by the check as first built ({', '.join('`' + m + '`' for m in missed)}) and led to the
 strengthenings named in the last column — mostly richer generators (inputs the first generator never produced: equal
 columns, unused columns, tuple-valued callbacks, library-built cycles, large or shuffled clique sizes, mixed-topology motifs,
-list annotations, multigraphs, exact zeros, parameters at the ends of their ranges), twice a sharper observation (C03: motifs
+list annotations, multigraphs, exact zeros, parameters at the ends of their ranges; in round seven, where 16 of 20 were missed
+at first, equivalent *representations* of the same input: NumPy-typed degrees, keys, bounds and annotations, array-valued
+arguments, iterator-valued callbacks, separately created name / root objects, label 0, and a few large instances), twice a sharper observation (C03: motifs
 as built, not only callback inputs; C13: the network must be untouched by the extraction).
 
 ''' + "\n".join(out) + "\n\n"
